@@ -31,10 +31,16 @@ namespace cnl {
         auto num = decltype(root + bit){x};
 
         while (bit > num) {
+#if defined(JOHNMCFARLANE_CNL_VERIF)
+            JOHNMCFARLANE_CNL_VERIF_TICK(4);
+#endif
             bit >>= 2;
         }
 
         while (bit) {
+#if defined(JOHNMCFARLANE_CNL_VERIF)
+            JOHNMCFARLANE_CNL_VERIF_TICK(5);
+#endif
             if (num >= root + bit) {
                 num -= root + bit;
                 root = (root >> 1) + bit;
